@@ -34,9 +34,13 @@ SPACE = {'quick': 'token strings <= 3 over the 16 most interaction-prone tokens 
 JOB_TIMEOUT = 2300
 CAP = {'quick': 300.0, 'thorough': 2400.0}
 
-T = ['w', '\n\n', '\n  ', '\n    ', 'L{', '}', 'B{', 'C{', 'U{', 'E{', '@param a:', '@type a:', '@foo', ':param a:', ':type a:', '- ', '1. ', '::', '>>> ', '`', '``',
+_LT = 'A section title that is a good deal longer than forty eight characters'
+LONGH = _LT + '\n' + '=' * len(_LT) + '\n\n'
+LONGSUB = _LT + '\n' + '-' * len(_LT) + '\n\n'
+INDENTED_FIELD = '\n\n  @param a: w\n\n'
+T = ['w', '\n\n', '\n  ', '\n    ', 'L{', '}', 'B{', 'C{', 'U{', 'E{', '@param a:', '@type a:', '@foo', ':param a:', ':type a:', '- ', '1. ', '::', '>>> ', '`', '``', 'Title\n=====\n\n', LONGH, LONGSUB, INDENTED_FIELD,
      '*', '|', '_', '<a&"', 'Args:', 'Returns\n-------', '.. note::', '.. code::', '\x00', '\x0b', '\udc80', '\uffff', '\\', '=====', '\xa0', '\r', '@ivar v:']
-T16 = ['w', '\n\n', '\n  ', 'L{', '}', 'C{', '@param a:', ':param a:', '- ', '::', '>>> ', '`', '``', '*', '.. note::', '=====', '@foo ', '\xa0']
+T16 = ['w', '\n\n', '\n  ', 'L{', '}', 'C{', '@param a:', ':param a:', '- ', '::', '>>> ', '`', '``', '*', '.. note::', '=====', '@foo ', '\xa0', 'Title\n=====\n\n', LONGH, LONGSUB, INDENTED_FIELD]
 FMTS = ['epytext', 'restructuredtext', 'google', 'numpy', 'plaintext']
 KINDS = ['module', 'class', 'function', 'attribute', 'property', 'inherited']
 SRC = ('"""placeholder"""\nclass K:\n    "placeholder"\n    @property\n    def p(self):\n        "placeholder"\n    attr = 1\n    "placeholder"\n'
@@ -65,11 +69,20 @@ def install(s: Any, obj: Any, doc: str) -> None:
     del s.messages[:]
 
 
-def render_all(obj: Any) -> Tuple[str, str, str, str]:
+def render_all(obj: Any, order: str = 'body-first') -> Tuple[str, str, str, str]:
+    """body-first is the order of a member's own rendering; summary-first is the order of a real run (summary tables and
+    indexes are produced before the object's own page)."""
     from pydoctor import epydoc2stan, model
     from pydoctor.stanutils import flatten, flatten_text
     if isinstance(obj, (model.Module, model.Class)) and obj.docstring is not None:
         epydoc2stan.extract_fields(obj)
+    if order == 'summary-first':
+        hs = flatten(epydoc2stan.format_summary(obj))
+        t = epydoc2stan.format_toc(obj)
+        ht = flatten(t) if t is not None else ''
+        body = epydoc2stan.format_docstring(obj)
+        hb = flatten(body)
+        return hb, flatten_text(body), hs, ht
     body = epydoc2stan.format_docstring(obj)
     hb = flatten(body)
     hs = flatten(epydoc2stan.format_summary(obj))
@@ -103,10 +116,13 @@ class CaseTimeout(Exception):
     pass
 
 
-def judge_doc(s: Any, fmt: str, pt: bool, kind: str, doc: str, control: str, res: Dict[str, Any]) -> None:
+CASE_TIMEOUT = 30
+
+
+def judge_doc(s: Any, fmt: str, pt: bool, kind: str, doc: str, control: str, res: Dict[str, Any], order: str = 'body-first') -> None:
     obj = s.allobjects[OBJ[kind]]
     sib = s.allobjects['m.g']
-    case = {'kind': 'doc', 'fmt': fmt, 'pt': pt, 'okind': kind, 'doc': doc}
+    case = {'kind': 'doc', 'fmt': fmt, 'pt': pt, 'okind': kind, 'doc': doc, 'order': order}
     res['evals'] += 1
     install(s, obj, doc)
     cleaned = obj.docstring
@@ -118,7 +134,8 @@ def judge_doc(s: Any, fmt: str, pt: bool, kind: str, doc: str, control: str, res
         for sec in list(s.parse_errors):
             s.parse_errors[sec].discard(shown.fullName())
     try:
-        hb, tb, hs, ht = render_all(shown)
+        with core.time_limit(CASE_TIMEOUT):
+            hb, tb, hs, ht = render_all(shown, order)
     except core.JobTimeout:
         res['violations'].append(core.violation(f'hang/{fmt}', f'rendering {doc!r} as {fmt} on a {kind} does not terminate within the time limit', case))
         return
@@ -292,6 +309,9 @@ def jobs(tier: str) -> Iterable[Tuple[str, Any]]:
             for kind in KINDS:
                 yield ('tokens<=2:all-kinds', ('tok', fmt, pt, kind, 2, None, 'T'))
     for fmt in FMTS:
+        for t0 in T16:
+            yield ('tokens<=3:T16:summary-first', ('tok', fmt, False, 'function', 3, t0, 'T16', 'summary-first'))
+    for fmt in FMTS:
         for pt in (False, True):
             yield ('faults', ('fault', fmt, pt))
     if tier == 'thorough':
@@ -313,11 +333,12 @@ def _alarm(signum: int, frame: Any) -> None:
 def run_job(job: Any, tier: str) -> Dict[str, Any]:
     res = core.result()
     if job[0] == 'tok':
-        _, fmt, pt, kind, n, first, alpha = job
+        _, fmt, pt, kind, n, first, alpha = job[:7]
+        order = job[7] if len(job) > 7 else 'body-first'
         s = mk(fmt, pt)
         control = control_of(s)
         for doc in token_strings(T if alpha == 'T' else T16, n, first):
-            judge_doc(s, fmt, pt, kind, doc, control, res)
+            judge_doc(s, fmt, pt, kind, doc, control, res, order)
     else:
         _, fmt, pt = job
         for site in SITES:
@@ -330,7 +351,7 @@ def replay(case: Dict[str, Any]) -> List[Dict[str, Any]]:
     res = core.result()
     if case['kind'] == 'doc':
         s = mk(case['fmt'], case['pt'])
-        judge_doc(s, case['fmt'], case['pt'], case['okind'], case['doc'], control_of(s), res)
+        judge_doc(s, case['fmt'], case['pt'], case['okind'], case['doc'], control_of(s), res, case.get('order', 'body-first'))
     else:
         judge_fault(case['fmt'], case['pt'], case['site'], case['exc'], res)
     return res['violations']
